@@ -68,6 +68,10 @@ def parse_crash(stderr_text, returncode, hung):
         if m:
             kind = "asan:" + m.group(1).strip().replace(" ", "-")
             break
+        m = re.search(r"WARNING: ThreadSanitizer: ([a-zA-Z0-9\-_ ]+?)( \(|$)", ln)
+        if m:
+            kind = "tsan:" + m.group(1).strip().replace(" ", "-")
+            break
         m = re.search(r"runtime error: (.*)", ln)
         if m:
             msg = re.sub(r"0x[0-9a-f]+", "P", m.group(1))
@@ -135,6 +139,7 @@ def _env(cfg):
                            "allocator_may_return_null=1:detect_stack_use_after_return=0:"
                            "quarantine_size_mb=16:malloc_context_size=8")
     env["UBSAN_OPTIONS"] = "print_stacktrace=1:halt_on_error=1:exitcode=87"
+    env["TSAN_OPTIONS"] = "halt_on_error=1:exitcode=88:second_deadlock_stack=1"
     return env
 
 
